@@ -3,7 +3,7 @@ import AmaranthVerif.Model.Expr
 import AmaranthVerif.Spec.Denote
 import AmaranthVerif.Model.Assign
 import AmaranthVerif.Spec.AssignSpec
-import AmaranthVerif.Spec.Derived
+import AmaranthVerif.Model.DerivedBuild
 
 /-! # Reading expressions from the line protocol (unverified I/O glue) -/
 
@@ -109,10 +109,18 @@ def parseDOp : Sexp → Option DOp
 
 /-- `(derived op ctx (operands e*) env*)` → `derived <w> <u|s> ; v ; v …` (the Spec value per env), or `derived none` -/
 def handleDerived : Sexp → Option String
-  | .list (.atom "derived" :: o :: c :: .list (.atom "operands" :: es) :: envs) => do
+  | .list (.atom "derived" :: o :: c :: .list (.atom "operands" :: es) :: rest) => do
       let op ← parseDOp o
       let ctx ← parseCtx c
       let exprs ← es.mapM (parseExpr ctx)
+      -- `(built <expr>)`: what the Python method returned; compared structurally with the model's rewrite
+      let (built, envs) ← match rest with
+        | .list [.atom "built", b] :: envs => do some (some (← parseExpr ctx b), envs)
+        | envs => some (none, envs)
+      let same := match built, mkDerived ctx op exprs with
+        | some b, some m => if reprStr b == reprStr m then "same" else s!"differs:{reprStr m}"
+        | _, none => "na"
+        | none, _ => "na"
       let envl ← envs.mapM parseEnv
       let outs := envl.map fun env => derived op (exprs.map fun e => (shapeOf ctx e, denote ctx env e))
       match outs with
@@ -121,7 +129,7 @@ def handleDerived : Sexp → Option String
         match first with
         | none => some "derived none"
         | some (sh, _) =>
-          some (s!"derived {showShape sh} ; " ++ " ; ".intercalate (outs.map fun r => match r with | some (_, v) => toString v | none => "none"))
+          some (s!"derived {showShape sh} built={same} ; " ++ " ; ".intercalate (outs.map fun r => match r with | some (_, v) => toString v | none => "none"))
   | _ => none
 
 def showEnv (e : Env) : String := ",".intercalate (e.map toString)
